@@ -11,8 +11,10 @@ package cmd
 //@   invariant bounds: 0 <= iter && iter <= len(pl)
 //@   invariant empty: forall i :: 0 <= i && i < iter ==> len(pl[i]) == 0
 
+//@ spec sameShapes(tl TimeSeriesList, ul TimeSeriesList) opaque bool = len(tl) == len(ul) && (forall i :: 0 <= i && i < len(tl) ==> sameShape(tl[i], ul[i]))
 //@ func (TimeSeriesList).AllEqualTimeRangeAndStep
 //@   props C08 C09 C10 C16
+//@   ensures opaque_form: result <==> sameShapes(tl, ul)
 //@   ensures lens: len(tl) != len(ul) ==> !result
 //@   ensures iff: len(tl) == len(ul) ==> (result <==> forall i :: 0 <= i && i < len(tl) ==> sameShape(tl[i], ul[i]))
 //@ loop (TimeSeriesList).AllEqualTimeRangeAndStep#0
@@ -394,7 +396,7 @@ package cmd
 //@   invariant same: forall k :: 0 <= k && k < i ==> sameLayout(hList[0].archiveInfoList, hList[k].archiveInfoList)
 //@ loop sumWhisperFileLocal#2
 //@   invariant bounds: 1 <= i && i <= len(tsListList)
-//@   invariant same: forall k :: 1 <= k && k < i ==> forall a :: 0 <= a && a < len(tsListList[0]) ==> sameShape(tsListList[0][a], tsListList[k][a])
+//@   invariant same: forall k :: 1 <= k && k < i ==> sameShapes(tsListList[0], tsListList[k])
 
 //@ func sumWhisperFileRemote
 //@   props C10 C12 C16
@@ -501,7 +503,7 @@ package cmd
 //@ spec pairCleanX(a *TimeSeries, b *TimeSeries) bool = tsLen(a) == tsLen(b) && (a == nil || b == nil || tsDiffCntX(a, b, len(a.values)) == 0)
 
 //@ func (*CopyCommand).copyOneFile
-//@   props C08 C16 C05
+//@   props C08 C16
 //@   requires c != nil
 //@   assume now != 0 && now - c.From <= 2147483647 at until
 //@   assume clockOK(db, now) before fetchTimeSeriesList
@@ -518,7 +520,7 @@ package cmd
 //@   assert[C08] writes_the_difference: db == destDB && len(pointsList) == len(srcTsList) && len(srcTsList) == len(destTsList)
 //@                 && (c.CopyNaN ==> forall k :: 0 <= k && k < len(srcTsList) ==> diffOf(srcTsList[k], destTsList[k], pointsList[k], destPlDif[k]))
 //@                 && (!c.CopyNaN ==> forall k :: 0 <= k && k < len(srcTsList) ==> diffOfX(srcTsList[k], destTsList[k], pointsList[k], destPlDif[k])) before updateFileDataWithPointsList
-//@   check[C08,C05] synced: result0 == nil && called(updateFileDataWithPointsList) ==> called("(*Whisper).Sync") && callret("(*Whisper).Sync", 0) == nil && callret(updateFileDataWithPointsList, 0) == nil
+//@   check[C08] synced: result0 == nil && called(updateFileDataWithPointsList) ==> called("(*Whisper).Sync") && callret("(*Whisper).Sync", 0) == nil && callret(updateFileDataWithPointsList, 0) == nil
 
 // NOTE: unlike diffOneFile, sumDiffItem does not compare the windows of the two series lists before Diff; printDiff's
 // precondition (the destination list is at least as long as the sum's) therefore rests on both sides having been fetched
@@ -537,7 +539,7 @@ package cmd
 //@                 && len(sumTsList) == len(destTsList) && (forall k :: 0 <= k && k < len(sumTsList) ==> seriesEqual(sumTsList[k], destTsList[k]))
 
 //@ func (*SumCopyCommand).sumCopyItem
-//@   props C11 C16 C05
+//@   props C11 C16
 //@   requires c != nil
 //@   assume now != 0 && now - c.From <= 2147483647 at until
 //@   assume clockOK(db, now) before fetchTimeSeriesList
@@ -551,7 +553,7 @@ package cmd
 //@                 ==> forall k :: 0 <= k && k < len(srcTsList) ==> pairClean(srcTsList[k], destTsList[k])
 //@   assert[C11] writes_the_difference: db == destDB && len(pointsList) == len(srcTsList) && len(srcTsList) == len(destTsList)
 //@                 && (forall k :: 0 <= k && k < len(srcTsList) ==> diffOf(srcTsList[k], destTsList[k], pointsList[k], destPlDif[k])) before updateFileDataWithPointsList
-//@   check[C11,C05] synced: result0 == nil && called(updateFileDataWithPointsList) ==> called("(*Whisper).Sync") && callret("(*Whisper).Sync", 0) == nil && callret(updateFileDataWithPointsList, 0) == nil
+//@   check[C11] synced: result0 == nil && called(updateFileDataWithPointsList) ==> called("(*Whisper).Sync") && callret("(*Whisper).Sync", 0) == nil && callret(updateFileDataWithPointsList, 0) == nil
 
 //@ func (*CopyCommand).execute
 //@   props C08 C16
@@ -607,7 +609,7 @@ package cmd
 //@   invariant high: (i == 0 ==> highPts.arr == 0 && len(highPts) == 0) && (i > 0 ==> len(highPts) > 0 && highRet != nil && highRet.secondsPerPoint > 0) && 0 <= highRndMax && highRndMax < 4611686018427387904
 
 //@ func (*GenerateCommand).execute
-//@   props C20 C16 C05
+//@   props C20 C16
 //@   requires c != nil
 //@   assume now != 0 && clockOK(db, now) && timesUpTo(pointsList, now) && separate(pointsList) before updateFileDataWithPointsList
 //@   modifies ghost(nopen, 0), ghost(nlocked, 0), rows(Point), c.ArchiveInfoList[0:len(c.ArchiveInfoList)]
@@ -617,4 +619,4 @@ package cmd
 //@   check[C20] filled: result0 == nil && c.Fill ==> called(updateFileDataWithPointsList) && callret(updateFileDataWithPointsList, 0) == nil
 //@                 && len(ptsList) == len(c.ArchiveInfoList) && (forall k :: 0 <= k && k < len(ptsList) ==> len(ptsList[k]) == c.ArchiveInfoList[k].numberOfPoints)
 //@   check[C20] empty: result0 == nil && !c.Fill ==> !called(updateFileDataWithPointsList)
-//@   check[C20,C05] synced: result0 == nil ==> called("(*Whisper).Sync") && callret("(*Whisper).Sync", 0) == nil
+//@   check[C20] synced: result0 == nil ==> called("(*Whisper).Sync") && callret("(*Whisper).Sync", 0) == nil
